@@ -9,6 +9,7 @@
 #include "lpc/buffer.h"
 #include "comm.h"
 #include "main.h"
+#include "rc.h"
 #include "interpret.h"
 #include "async/async_runtime.h"
 #include "vharness.h"
@@ -18,6 +19,7 @@ V_NONDET_FN(interactive_t); V_NONDET_FN(object_t);
 long G_cap; int G_cr0;
 static interactive_t *G_ip;
 static main_options_t G_opts;
+main_options_t *g_main_options;   /* defined in src/main.c, not part of any C13 harness */
 
 /* Output side: the real add_message / add_vmessage / flush_message bodies are removed from the TU for the
    C13 harnesses (stub_out) and replaced by these trusted stubs.  Their frame (only the message ring, out_of_band
